@@ -1660,3 +1660,263 @@ theorem c04_src_recarray_idx_eq (s : PMM V) (hw : C04.PMMWF s) (g : List V) (sel
       simp only [hall, if_true, ih (fun j hj => h j (by simp [hj]))]
   unfold PMM.srcParamsRecarrayIdx PMM.srcParamsRecarray
   rw [key _ (fun i hi => hi)]
+
+/-! ### hypotheses discharged by the code, wrong-length vectors, the global dictionary -/
+
+/-- **the constructor establishes the parameter invariant**: whatever `Parameter(name, initial, valmin,
+valmax, isfixed)` accepts is well-formed (hypothesis `ParamWF p` of `c04_add_result`, `c04_map_result`) -/
+theorem c04_create_wf (a : PArgs V) (p : Param V) (h : a.create = .ok p) : ParamWF p ∧ p.name = a.name :=
+  create_wf (show Param.create _ _ _ _ _ = _ from h)
+
+/-- in a row without repeated local names the column of a name is the first one (hypothesis `hfirst`
+of `c04_cell_at`; the mapper establishes the premise: `c04_pmm_refine`) -/
+theorem C04.first_of_nodup (row : List (Option String)) (f : String) (j : Nat)
+    (hu : (row.filterMap id).Nodup) (hr : row[j]? = some (some f)) :
+    ∀ j' < j, row[j']? ≠ some (some f) := by
+  induction row generalizing j with
+  | nil => simp at hr
+  | cons r row ih =>
+    intro j' hj' hj'r
+    cases j with
+    | zero => omega
+    | succ j =>
+      simp only [List.getElem?_cons_succ] at hr
+      have hmem : some f ∈ row := List.mem_of_getElem? hr
+      cases j' with
+      | zero =>
+        simp only [List.getElem?_cons_zero, Option.some.injEq] at hj'r
+        subst hj'r
+        simp only [List.filterMap_cons, id, List.nodup_cons] at hu
+        exact hu.1 (List.mem_filterMap.2 ⟨some f, hmem, rfl⟩)
+      | succ j'' =>
+        simp only [List.getElem?_cons_succ] at hj'r
+        have hu' : (row.filterMap id).Nodup := by
+          cases r with
+          | none => simpa using hu
+          | some x => simp only [List.filterMap_cons, id, List.nodup_cons] at hu; exact hu.2
+        exact ih j hu' hr j'' (by omega) hj'r
+
+/-- the closed form of the cell for a reachable mapper: model `midx`, global parameter `j` mapped under
+`f`, value vector of the right length -/
+theorem c04_cell_at_wf (s : PMM V) (hw : C04.PMMWF s) (g : List V) (hg : g.length = s.gps.floatNames.length)
+    (midx : Nat) (row : List (Option String)) (hrow : s.mpn[midx]? = some row) (j : Nat) (p : Param V) (f : String)
+    (hp : s.gps.params[j]? = some p) (hr : row[j]? = some (some f)) :
+    Spec.cell f s.gps.params row 0 0 g =
+      if p.isfixed then some (p.value, -((j : Int) + 1))
+      else (g[C04.rankAt s.gps.params j]?).map (fun v => (v, (C04.rankAt s.gps.params j : Int) + 1)) := by
+  have hmem : row ∈ s.mpn := List.mem_of_getElem? hrow
+  have hgl : C04.rankAt s.gps.params j ≤ g.length := by
+    rw [hg, hw.gps.caches.floatNames, List.length_map]
+    unfold C04.rankAt
+    have : List.Sublist ((s.gps.params.take j).filter (fun p => !p.isfixed))
+        (s.gps.params.filter (fun p => !p.isfixed)) :=
+      List.Sublist.filter _ (List.take_sublist j _)
+    exact this.length_le
+  have := c04_cell_at f s.gps.params row j p 0 0 g hp hr
+    (C04.first_of_nodup row f j (hw.uniq row hmem) hr) hgl
+  simpa using this
+
+namespace C04
+
+theorem maskSel_length {α : Type} {xs : List α} {m : List Bool} {r : List α} (h : maskSel xs m = .ok r) :
+    xs.length = m.length := by
+  induction xs generalizing m r with
+  | nil =>
+    cases m with
+    | nil => rfl
+    | cons b bs => simp [maskSel] at h
+  | cons x xs ih =>
+    cases m with
+    | nil => simp [maskSel] at h
+    | cons b bs =>
+      unfold maskSel at h
+      cases hr : maskSel xs bs with
+      | error e => rw [hr] at h; cases h
+      | ok r' => simp [ih hr]
+
+theorem maskSel_len_ne {α : Type} {xs : List α} {m : List Bool} (h : xs.length ≠ m.length) :
+    ∃ e, maskSel xs m = .error e := by
+  cases hr : maskSel xs m with
+  | error e => exact ⟨e, rfl⟩
+  | ok r => exact absurd (maskSel_length hr) h
+
+end C04
+
+/-- **a value vector of the wrong length is rejected by `create_model_params_dict`** as soon as there
+is a floating global parameter (without one, numpy accepts any vector for the then empty mask) -/
+theorem c04_model_dict_rejects_wrong_length (s : PMM V) (hw : C04.PMMWF s) (g : List V) (midx : Nat)
+    (row : List (Option String)) (hrow : s.mpn[midx]? = some row) (hfl : 0 < s.gps.floatNames.length)
+    (hg : g.length ≠ s.gps.floatNames.length) : ∃ e, s.modelParamsDict g midx = .error e := by
+  have hs := hw.gps
+  have hc := hs.caches
+  have hmem : row ∈ s.mpn := List.mem_of_getElem? hrow
+  have hl := hw.cols row hmem
+  have hfm : s.gps.floatMask = s.gps.params.map (fun p => !p.isfixed) := by
+    simp [PSet.floatMask, hs.mask]
+  have hnfl : s.gps.floatNames.length = (s.gps.params.filter (fun p => !p.isfixed)).length := by
+    rw [hc.floatNames, List.length_map]
+  -- an inhabitant of `V`: the value of a floating parameter
+  have hne : s.gps.params.filter (fun p => !p.isfixed) ≠ [] := by
+    intro h; rw [hnfl, h] at hfl; simp at hfl
+  obtain ⟨p0, _⟩ := List.exists_mem_of_ne_nil _ hne
+  obtain ⟨n1, m1, i1, v1, a1, a2, a3, a4, _, _, _⟩ :=
+    maskForm (fun p => !p.isfixed) (fun i => i + 1) s.gps.params row
+      (PMM.cumsumM1 (s.gps.params.map (fun p => !p.isfixed)) ((0 : Nat) : Int))
+      (List.replicate (s.gps.params.filter (fun p => !p.isfixed)).length p0.value) hl
+      (by rw [cumsumM1_length, List.length_map]) (by simp)
+  obtain ⟨n2, m2, i2, v2, b1, b2, b3, _, _, _, _⟩ :=
+    maskForm (fun p => p.isfixed) (fun i => -i - 1) s.gps.params row
+      ((List.range' 0 s.gps.params.length).map (fun (i : Nat) => (i : Int)))
+      ((s.gps.params.filter (·.isfixed)).map (·.value)) hl (by simp) (by simp)
+  have hm1 : m1.length = s.gps.floatNames.length := by
+    have := C04.maskSel_length a4
+    simp only [List.length_replicate] at this
+    rw [hnfl, this]
+  have hbad : ∃ e, maskSelNp g m1 = .error e := by
+    cases m1 with
+    | nil => simp at hm1; omega
+    | cons b bs => exact C04.maskSel_len_ne (by rw [hm1]; exact hg)
+  obtain ⟨e, he⟩ := hbad
+  refine ⟨.indexError, ?_⟩
+  unfold PMM.modelParamsDict
+  rw [hrow]
+  simp only
+  unfold PMM.rowEntries
+  simp only [Nat.cast_zero] at a3
+  simp only [hfm, hs.mask, List.range_eq_range', maskSelNp_of_ok a1, maskSelNp_of_ok a2,
+    maskSelNp_of_ok a3, maskSelNp_of_ok b1, maskSelNp_of_ok b2, maskSelNp_of_ok b3, he, PSet.exMap]
+
+namespace C04
+
+theorem lastLookup_append' {β : Type} (k : String) (l1 l2 : List (String × β)) :
+    lastLookup k (l1 ++ l2) = (lastLookup k l2).or (lastLookup k l1) := by
+  rw [lastLookup_append]
+  cases lastLookup k l2 <;> rfl
+
+theorem filter_rank_get (ps : List (Param V)) (j : Nat) (p : Param V) (hp : ps[j]? = some p)
+    (hf : p.isfixed = false) : (ps.filter (fun q => !q.isfixed))[rankAt ps j]? = some p := by
+  induction ps generalizing j with
+  | nil => simp at hp
+  | cons q ps ih =>
+    cases j with
+    | zero =>
+      simp only [List.getElem?_cons_zero, Option.some.injEq] at hp
+      subst hp
+      simp [rankAt, List.filter_cons, hf]
+    | succ j =>
+      simp only [List.getElem?_cons_succ] at hp
+      cases hq : q.isfixed
+      · have : rankAt (q :: ps) (j + 1) = rankAt ps j + 1 := by simp [rankAt, List.filter_cons, hq]
+        rw [this]
+        simp only [List.filter_cons, hq, Bool.not_false, if_true, List.getElem?_cons_succ]
+        exact ih j hp
+      · have : rankAt (q :: ps) (j + 1) = rankAt ps j := by simp [rankAt, List.filter_cons, hq]
+        rw [this]
+        simp only [List.filter_cons, hq, Bool.not_true, Bool.false_eq_true, if_false]
+        exact ih j hp
+
+theorem lastLookup_zip_nodup {β : Type} (ns : List String) (g : List β) (k : Nat) (n : String)
+    (hnd : ns.Nodup) (hk : ns[k]? = some n) : lastLookup n (ns.zip g) = g[k]? := by
+  induction ns generalizing g k with
+  | nil => simp at hk
+  | cons x ns ih =>
+    rw [List.nodup_cons] at hnd
+    cases g with
+    | nil => simp [lastLookup]
+    | cons v g =>
+      simp only [List.zip_cons_cons, lastLookup_cons]
+      cases k with
+      | zero =>
+        simp only [List.getElem?_cons_zero, Option.some.injEq] at hk
+        subst hk
+        have : lastLookup x (ns.zip g) = none := by
+          apply lastLookup_none
+          intro e he hex
+          have := (List.of_mem_zip he).1
+          rw [hex] at this
+          exact hnd.1 this
+        simp [this]
+      | succ k =>
+        simp only [List.getElem?_cons_succ] at hk
+        have hx : x ≠ n := fun h => hnd.1 (by rw [h]; exact List.mem_of_getElem? hk)
+        rw [ih g k hnd.2 hk, List.getElem?_cons_succ]
+        cases g[k]? with
+        | some w => rfl
+        | none => simp [hx]
+
+theorem lastLookup_zip_not_mem {β : Type} (ns : List String) (g : List β) (n : String) (h : n ∉ ns) :
+    lastLookup n (ns.zip g) = none := by
+  apply lastLookup_none
+  intro e he hex
+  have := (List.of_mem_zip he).1
+  rw [hex] at this
+  exact h this
+
+end C04
+
+/-- **the global value dictionary** (`get_params_dict` / `create_global_params_dict`): under the global
+name of the parameter at position `j` it holds the parameter's fixed value when it is fixed and the
+entry `g[k]`, `k` = its fit-parameter index, of the supplied vector when it is floating -/
+theorem c04_params_dict_lookup (s : PSet V) (hs : Coherent s) (q : List String) (g : List V) (j : Nat)
+    (p : Param V) (hp : s.params[j]? = some p) :
+    lastLookup p.name (s.views q g).paramsDict =
+      if p.isfixed then some p.value else g[C04.rankAt s.params j]? := by
+  have hc := hs.caches
+  have hmem : p ∈ s.params := List.mem_of_getElem? hp
+  have hinj : ∀ q' ∈ s.params, q'.name = p.name → q' = p := by
+    intro q' hq' hn
+    have hnd := hs.nodup
+    generalize s.params = ps at hq' hmem hnd
+    induction ps with
+    | nil => cases hq'
+    | cons x ps ih =>
+      rw [List.map_cons, List.nodup_cons] at hnd
+      rcases List.mem_cons.1 hq' with h1 | h1 <;> rcases List.mem_cons.1 hmem with h2 | h2
+      · rw [h1, h2]
+      · subst h1; exact absurd (by rw [hn]; exact List.mem_map_of_mem h2) hnd.1
+      · subst h2; exact absurd (by rw [← hn]; exact List.mem_map_of_mem h1) hnd.1
+      · exact ih h1 h2 hnd.2
+  have hndfl : ((s.params.filter (fun q => !q.isfixed)).map (·.name)).Nodup :=
+    (List.Sublist.map _ (List.filter_sublist)).nodup hs.nodup
+  have hndfx : ((s.params.filter (·.isfixed)).map (·.name)).Nodup :=
+    (List.Sublist.map _ (List.filter_sublist)).nodup hs.nodup
+  simp only [PSet.views, C04.lastLookup_append']
+  rw [hc.fixedNames, hc.fixedVals, hc.floatNames]
+  cases hf : p.isfixed
+  · -- floating: not among the fixed names, at position rank among the floating names
+    have hnot : p.name ∉ (s.params.filter (·.isfixed)).map (·.name) := by
+      intro hm
+      obtain ⟨q', hq', hqn⟩ := List.mem_map.1 hm
+      have := hinj q' (List.mem_filter.1 hq').1 hqn
+      rw [this] at hq'
+      have := (List.mem_filter.1 hq').2
+      rw [hf] at this
+      cases this
+    rw [C04.lastLookup_zip_not_mem _ _ _ hnot]
+    simp only [Bool.false_eq_true, if_false]
+    apply C04.lastLookup_zip_nodup _ _ _ _ hndfl
+    rw [List.getElem?_map, C04.filter_rank_get s.params j p hp hf]
+    rfl
+  · -- fixed: found among the fixed names with its own value
+    obtain ⟨k, hk⟩ := List.mem_iff_getElem?.1 (List.mem_filter.2 ⟨hmem, hf⟩)
+    have h1 : lastLookup p.name (((s.params.filter (·.isfixed)).map (·.name)).zip
+        ((s.params.filter (·.isfixed)).map (·.value))) = some p.value := by
+      rw [C04.lastLookup_zip_nodup _ _ k p.name hndfx (by rw [List.getElem?_map, hk]; rfl),
+        List.getElem?_map, hk]
+      rfl
+    rw [h1]
+    simp
+
+/-- **per-source table and global dictionary hand out the same value**: the value in the table cell of
+model `midx` under the alias `f` of the global parameter at position `j` is the value the global
+dictionary holds under that parameter's global name -/
+theorem c04_table_value_is_global_value (s : PMM V) (hw : C04.PMMWF s) (g : List V)
+    (hg : g.length = s.gps.floatNames.length) (midx : Nat) (row : List (Option String))
+    (hrow : s.mpn[midx]? = some row) (j : Nat) (p : Param V) (f : String)
+    (hp : s.gps.params[j]? = some p) (hr : row[j]? = some (some f)) (q : List String) :
+    (Spec.cell f s.gps.params row 0 0 g).map (·.1) = lastLookup p.name (s.gps.views q g).paramsDict := by
+  rw [c04_cell_at_wf s hw g hg midx row hrow j p f hp hr, c04_params_dict_lookup s.gps hw.gps q g j p hp]
+  cases p.isfixed
+  · simp only [Bool.false_eq_true, if_false, Option.map_map]
+    cases g[C04.rankAt s.gps.params j]? <;> rfl
+  · rfl
